@@ -77,13 +77,14 @@ def canon_json(obj):
     return json.dumps(obj, sort_keys=True, separators=(",", ":"), ensure_ascii=True)
 
 
-def pixel_rows(df, cols):
-    """Rows of a pixel data frame as lists of exact integers, columns in the given order."""
-    arrs = [np.asarray(df[c]) for c in cols]
+def pixel_rows(df, cols, scale=1):
+    """Rows of a pixel data frame as lists of exact integers, columns in the given order (value columns times `scale`)."""
+    arrs = [np.asarray(df[c]) if c in ("bin1_id", "bin2_id") or scale == 1 else np.asarray(df[c], dtype=np.float64) * scale
+            for c in cols]
     return [[to_int(a[k], f"pixel column {c}") for a, c in zip(arrs, cols)] for k in range(len(df))]
 
 
-def api_view(clr, cols=("count",)):
+def api_view(clr, cols=("count",), scale=1):
     """What the public API reads back from a Cooler: pixel table, dense and sparse full matrix, tables, info."""
     cols = list(cols)
     p = clr.pixels()[:]
@@ -92,7 +93,7 @@ def api_view(clr, cols=("count",)):
     b = clr.bins()[:]
     info = clr.info
     out = {
-        "pixels": pixel_rows(p, ["bin1_id", "bin2_id", *cols]),
+        "pixels": pixel_rows(p, ["bin1_id", "bin2_id", *cols], scale),
         "pcolumns": [str(c) for c in p.columns],
         "pindex": ints(p.index),
         "bins": [[names.index(str(ch)), to_int(s), to_int(e)] for ch, s, e in zip(b["chrom"], b["start"], b["end"])],
@@ -105,11 +106,11 @@ def api_view(clr, cols=("count",)):
     if "count" in cols or not cols:
         de = clr.matrix(balance=False)[:, :]
         sp = clr.matrix(balance=False, sparse=True)[:, :]
-        out["dense"] = [[to_int(x) for x in row] for row in de]
-        out["sparse"] = [[int(r), int(c), to_int(v)] for r, c, v in zip(sp.row, sp.col, sp.data)]
+        out["dense"] = [[to_int(x * scale) for x in row] for row in de]
+        out["sparse"] = [[int(r), int(c), to_int(v * scale)] for r, c, v in zip(sp.row, sp.col, sp.data)]
         out["shape"] = [int(sp.shape[0]), int(sp.shape[1])]
     if len(cols) > 1 or (cols and cols[0] != "count"):
         f = cols[-1]
         sp = clr.matrix(field=f, balance=False, sparse=True)[:, :]
-        out["sparse_f"] = [[int(r), int(c), to_int(v)] for r, c, v in zip(sp.row, sp.col, sp.data)]
+        out["sparse_f"] = [[int(r), int(c), to_int(v * scale)] for r, c, v in zip(sp.row, sp.col, sp.data)]
     return out
